@@ -19,11 +19,11 @@ from . import common
 from .common import VERIF, Case, Infra, Result
 
 
-def write_replay(prop: str, seed: int, n: int, case: Case | None, lean_errors: list[str], extra: dict | None = None) -> Path:
+def write_replay(prop: str, seed: int, n: int, case: Case | None, lean_errors: list[str], extra: dict | None = None, tier: str = "quick") -> Path:
     d = VERIF / "replays"
     d.mkdir(exist_ok=True)
     p = d / f"{prop}-{seed}-{n}.json"
-    body = {"property": prop, "seed": seed}
+    body = {"property": prop, "seed": seed, "tier": tier}
     if case is not None:
         body.update({"kind": case.kind, "what": case.what, "case": case.data})
     if lean_errors:
@@ -55,6 +55,43 @@ def main(argv=None) -> int:
         return 2
 
 
+def replay(prop: str, mod, body: dict, findings) -> int:
+    """exit 1 if the recorded violation still occurs on the current tree, 0 if it does not.
+    First the module's own replay (re-evaluates the recorded case directly where it can); when that does not decide
+    (returns 0 without declaring REPLAY_EXACT), the run that produced the replay is repeated with the recorded seed and tier
+    - every random choice derives from the seed, so the same cases are generated - and the recorded case is looked up among
+    its violations / disagreements."""
+    if body.get("property") != prop:
+        raise Infra(f"the replay file belongs to property {body.get('property')}, not {prop}")
+    rc = mod.replay(body)
+    if rc == 1:
+        print("replay: the recorded case still fails on the current tree")
+        return 1
+    if getattr(mod, "REPLAY_EXACT", False):
+        print("replay: the recorded case no longer fails on the current tree")
+        return 0
+    seed, tier = int(body.get("seed", 0)), body.get("tier", "quick")
+    lean = common.lean_step(prop, "quick")
+    env = {"tier": tier, "seed": seed, "lean": lean, "findings": findings, "driver_ok": lean.driver_ok and common.DRIVER.exists()}
+    res = mod.run(env)
+    if body.get("broken_obligations") and not lean.ok:
+        print("replay: the recorded proof obligations are still broken:", *lean.errors[:3], sep="\n  ")
+        return 1
+    want = json.dumps(body.get("case"), sort_keys=True, default=repr)
+    for c in res.violations + res.disagreements:
+        if c.what == body.get("what") or json.dumps(c.data, sort_keys=True, default=repr) == want:
+            print(f"replay: seed {seed} tier {tier} reproduces it: {c.what[:300]}")
+            return 1
+    for d in body.get("disagreements", []):
+        for c in res.disagreements:
+            if c.what == d.get("what"):
+                print(f"replay: seed {seed} tier {tier} reproduces the disagreement: {c.what[:300]}")
+                return 1
+    print(f"replay: re-running seed {seed} tier {tier} on the current tree does not reproduce the recorded case "
+          f"({len(res.violations)} violations, {len(res.disagreements)} disagreements this run)")
+    return 0
+
+
 def run(prop: str, tier: str, seed: int, t0: float, args) -> int:
     manifest = json.loads((VERIF / "MANIFEST.json").read_text())
     chk = [c for c in manifest["checks"] if c["property_id"] == prop]
@@ -64,7 +101,7 @@ def run(prop: str, tier: str, seed: int, t0: float, args) -> int:
     findings = [f for f in common.load_findings()["findings"] if prop in f["properties"]]
 
     if args.replay:
-        return mod.replay(json.loads(Path(args.replay).read_text()))
+        return replay(prop, mod, json.loads(Path(args.replay).read_text()), findings)
 
     # 1. Lean: translator, proofs, audit, driver
     if args.no_lean:
@@ -88,7 +125,7 @@ def run(prop: str, tier: str, seed: int, t0: float, args) -> int:
     if res.violations:
         exit_code = 1
         for c in res.violations[:5]:
-            p = write_replay(prop, seed, nrep, c, lean.errors)
+            p = write_replay(prop, seed, nrep, c, lean.errors, tier=tier)
             nrep += 1
             out_lines.append(f"VIOLATION property={prop} replay={p}")
     elif broken:
@@ -99,6 +136,7 @@ def run(prop: str, tier: str, seed: int, t0: float, args) -> int:
             prop, seed, nrep, c, lean.errors,
             {"note": "no input on which the property fails was found; the named theorem / correspondence no longer checks",
              "disagreements": [{"what": d.what, "case": d.data} for d in res.disagreements[:10]]},
+            tier=tier,
         )
         out_lines.append(f"VIOLATION property={prop} replay={p} no-failing-input-found")
 
